@@ -141,7 +141,8 @@ def r2_definitions(R) -> None:
         v = r.ast.value
         atoms = [(text(a), truth) for (a, truth, _t) in g.guard_atoms(r.id)]
         if isinstance(v, ast.Name) and v.id in g.fi.params():
-            R.violation(g.q, f'diff-returns-input:{";".join(t for t, tr in atoms if tr)}',
+            about_d = [t for (a, tr, _t) in g.guard_atoms(r.id) for t in [text(a)] if tr and v.id not in {y.id for y in ast.walk(a) if isinstance(y, ast.Name)}]
+            R.violation(g.q, f'diff-returns-input:{";".join(about_d)}',
                         f'`return {v.id}` under {[t for t, tr in atoms if tr]}: returns the input array itself; the stated formula x[i] - x[i-d] gives zeros for d = 0 '
                         f'(and the caller receives an alias of its input)', where=g.where(r))
             continue
@@ -204,7 +205,7 @@ def r4_helper_table(R) -> None:
     ok = False
     for d in ds:
         v = d.ast.value
-        guarded = any(truth and text(a) == 'builtins is None' for (a, truth, _t) in f.guard_atoms(d.id))
+        guarded = f.holds(d.id, 'builtins is None')
         if guarded and (is_call(v, 'copy.deepcopy', 'copy.copy', 'dict') and text(v.args[0]) == '_builtins'):
             ok = True
         if guarded and text(v) == '_builtins':
@@ -300,7 +301,8 @@ def r7_label_provenance(R) -> None:
     g = Fn(R, f'{VC}._resolve_expression_indexes.<locals>.resolve_index_in_span')
     rets = g.returns()
     posr = [r for r in rets if is_call(r.ast.value, 'int')]
-    ok = len(posr) == 1 and any(truth and text(a) == "'`' not in label" for (a, truth, _t) in g.guard_atoms(posr[0].id))
+    lab = (g.fi.params() + ['label'])[0]
+    ok = len(posr) == 1 and g.holds(posr[0].id, f"'`' not in {lab}")
     R.check(ok, g.q, 'positional-passthrough', 'an index without backticks keeps its positional meaning (int(text))',
             "no `if '`' not in label: return int(label.strip())`", where=g.fi.where)
     labr = [r for r in rets if is_self_call(r.ast.value, '_locate_period_in_span')]
